@@ -26,6 +26,14 @@ Theorem C10_delete_visible : forall s q a,
   sm_find a (sms (fst (api_step s q))) = None /\ forall b, b <> a -> sm_find b (sms (fst (api_step s q))) = sm_find b (sms s).
 Proof. exact delete_visible. Qed.
 
+(* a created definition is described back unchanged *)
+Theorem C10_create_then_describe : forall s q arn created,
+  action q = "CreateStateMachine" -> snd (api_step s q) = ROk (JObj [("creationDate", created); ("stateMachineArn", JStr arn)]) ->
+  exists r d, sm_find arn (sms (fst (api_step s q))) = Some r /\ check_definition q = Some d /\ sm_def r = d /\
+              forall q2, action q2 = "DescribeStateMachine" -> p q2 "stateMachineArn" = Some (JStr arn) -> valid_states_arn "stateMachine" arn = true ->
+                         snd (api_step (fst (api_step s q)) q2) = ROk (sm_describe r (dumps_or d)).
+Proof. exact create_then_describe. Qed.
+
 (* lists enumerate exactly the live set *)
 Theorem C10_list_is_the_live_set : forall s q kv, action q = "ListStateMachines" -> params q = Some kv ->
   api_step s q = (s, ROk (JObj [("stateMachines", JArr (map sm_summary (sms s)))])).
@@ -46,4 +54,5 @@ Print Assumptions C10_error_leaves_state.
 Print Assumptions C10_no_internal_error.
 Print Assumptions C10_one_record_per_arn.
 Print Assumptions C10_delete_visible.
+Print Assumptions C10_create_then_describe.
 Print Assumptions C10_list_is_the_live_set.
